@@ -201,7 +201,7 @@ def faulted_call(res, case, expect, label, key):
             return False
         cls, sub = expect
         tname = type(held).__name__
-        if tname != cls or (sub and sub not in str(held)):
+        if tname != cls or (sub and sub not in str(held)) or (sub is None and getattr(held, "args", ()) != ()):
             res.violation("%s: raised %s(%s), expected %s mentioning %r" % (label, tname, str(held)[:120], cls, sub), case)
         # leftover workers while the exception (and its traceback) is still referenced
         polls = 0
@@ -281,6 +281,8 @@ def run_tasks(spec, res):
         for n in range(info["ntasks"]):
             cls = EXC_ROT[(n + ci) % len(EXC_ROT)]
             msg = "injected-%d-%s" % (n, cls)
+            if (n + ci) % 5 == 4:
+                cls, msg = ["AssertionError", "MemoryError", "KeyError"][(n // 5) % 3], None      # an exception with empty args
             c = dict(case)
             c["task_plan"] = {str(n): {"raise_": (cls, msg)}}
             label = "task %d (round %d, cluster %d) raises %s, %s pool" % (n, n // case["K"], n % case["K"], cls, "3-process" if spec["mp"] else "single-process")
